@@ -75,6 +75,27 @@ Theorem C15_alignment : forall f s ts pos text k line p,
   end.
 Proof. exact text_alignment. Qed.
 
+Theorem C15_align_left : forall f s ts pos text k line p,
+  0 <= f_cw f -> 0 <= f_sp f -> t_align ts = ALeft ->
+  nth_error (text_lines f s ts pos text) k = Some (line, p) ->
+  px (tl (fst (measure_string f s line p (t_base ts)))) = px pos.
+Proof. exact align_left. Qed.
+
+Theorem C15_align_right : forall f s ts pos text k line p,
+  0 <= f_cw f -> 0 <= f_sp f -> t_align ts = ARight ->
+  nth_error (text_lines f s ts pos text) k = Some (line, p) ->
+  let bb := fst (measure_string f s line p (t_base ts)) in
+  px (tl bb) + sw (sz bb) - 1 = px pos.
+Proof. exact align_right. Qed.
+
+(* twice the distance between x and the centre of the box (left + (w-1)/2) is at most 1 *)
+Theorem C15_align_center : forall f s ts pos text k line p,
+  0 <= f_cw f -> 0 <= f_sp f -> t_align ts = ACenter ->
+  nth_error (text_lines f s ts pos text) k = Some (line, p) ->
+  let bb := fst (measure_string f s line p (t_base ts)) in
+  -1 <= 2 * px pos - (2 * px (tl bb) + sw (sz bb) - 1) <= 1.
+Proof. exact align_center. Qed.
+
 (* baseline: the setting moves the text up by the documented offset and changes nothing else *)
 Theorem C15_baseline_shift : forall F s ts pos text,
   let bo := baseline_offset (mf_geom F) (t_base ts) in
